@@ -613,8 +613,8 @@ def body(ck):
         "transitivity of == (reflexivity and symmetry are proved; both orders of every pair are checked)",
     ]
     if not ck.build_coq() or not ck.compile_props():
-    ck.kernel_link()   # Discrete / Box / MultiDiscrete contains (per-component view) regenerated from the source = in_rangeb / in_boxb (coq/link/C14_link.v)
         pass
+    ck.kernel_link()   # Discrete / Box / MultiDiscrete contains (per-component view) regenerated from the source = in_rangeb / in_boxb (coq/link/C14_link.v)
     rng = ck.rng
 
     n_spaces = 70 if quick else 700
